@@ -16,7 +16,7 @@ TOKEN_OPS = ["delete", "duplicate", "empty", "val:-1", "val:0", "val:4294967296"
 BLOCK_OPS = ["remove", "duplicate", "swap"]
 ALL_OPS = (["vtk.token." + o for o in TOKEN_OPS] + ["xml.elem." + o for o in TOKEN_OPS] + [k + ".line." + o for k in ("vtk", "xml") for o in BLOCK_OPS] +
            [k + ".section." + o for k in ("vtk", "xml") for o in BLOCK_OPS] + ["vtk.trunc", "xml.trunc"] +
-           ["vtk.empty_record." + o for o in ("cell_line_0", "cell_line_0_padded", "cell_without_faces", "faces_without_points", "no_points")])
+           ["vtk.empty_record." + o for o in ("cell_line_0", "cell_line_0_padded", "cell_without_faces", "faces_without_points", "no_points", "two_faces_sharing_no_point")])
 BASE_NAMES = ["cube", "two_cubes_polygonal", "two_spheres"]
 
 
